@@ -146,7 +146,7 @@ type midResult struct {
 // below an accepted fence).  Any other disagreement with the specification (a different era,
 // a rejected fence the specification accepts, a different floor) is a divergence of model and
 // code, reported as infrastructure trouble, never as a violation.
-func (r *midReplay) run(b kit.Behaviour, rep *kit.Report) {
+func (r *midReplay) run(b kit.Behaviour, rep *kit.Report) (clean bool) {
 	type running struct {
 		kind     string
 		f        int64
@@ -270,10 +270,15 @@ func (r *midReplay) run(b kit.Behaviour, rep *kit.Report) {
 	if cur != nil && cur.launched {
 		// the behaviour was cut inside a call: let the call finish (move the clock past everything)
 		r.clk.setOffset(time.Duration(2000*midEraMS) * time.Millisecond)
-		if got, ok := await(cur, "trailing call"); ok && cur.kind == "Next" {
-			checkID(got.id, len(b.Steps), map[string]any{"a": "End", "k": "Next"})
+		got, ok := await(cur, "trailing call")
+		if !ok {
+			return false
+		}
+		if cur.kind == "Next" && !checkID(got.id, len(b.Steps), map[string]any{"a": "End", "k": "Next"}) {
+			return false
 		}
 	}
+	return true
 }
 
 // ---- concurrent histories (code -> spec) ------------------------------------------------
@@ -581,6 +586,7 @@ func TestVerifMessageID(t *testing.T) {
 	if err != nil {
 		rep.Infra("load behaviours: %v", err)
 	}
+	unclean := 0
 	for bi, b := range behs {
 		if len(b.Steps) == 0 || kit.Str(b.Steps[0].Ev, "a") != "Init" {
 			rep.Infra("behaviour %d does not start with Init", bi)
@@ -591,7 +597,11 @@ func TestVerifMessageID(t *testing.T) {
 			rep.Infra("replay: %v", err)
 			break
 		}
-		r.run(b, rep)
+		if !r.run(b, rep) {
+			if unclean++; unclean >= 3 {
+				break // do not burn the time budget on a tree that keeps diverging
+			}
+		}
 		rep.Replayed(len(b.Steps) - 1)
 		if bi == 0 {
 			rep.Sample(b)
